@@ -1146,7 +1146,7 @@ def _inversion(ctx, filt, call):
             if v is not None:
                 return value(e.body if v else e.orelse, env, inverted)
         if isinstance(e, ast.BinOp) and isinstance(
-                e.op, (ast.BitXor, ast.NotEq)):
+                e.op, ast.BitXor):
             for x, y in ((e.left, e.right), (e.right, e.left)):
                 if is_self_attr(y, "inverted"):
                     return value(x, env, inverted) ^ int(inverted)
@@ -1902,4 +1902,134 @@ TWINS = [
      ('                if val == "True":\n'
       '                    self.inverted = True\n',
       '                self.inverted = val == "True"\n')),
+    ('refactoring: filter with renamed locals and early return', POLY,
+     [('        points = np.zeros((datax.shape[0], 2), dtype=np.float64)\n'
+       '        points[:, 0] = datax\n'
+       '        points[:, 1] = datay\n'
+       '        f = points_in_poly(points=points, verts=self.points)\n'
+       '\n'
+       '        if self.inverted:\n'
+       '            np.invert(f, f)\n'
+       '\n'
+       '        return f\n',
+       '        num_events = datax.shape[0]\n'
+       '        coords = np.zeros((num_events, 2), dtype=np.float64)\n'
+       '        coords[:, 0] = datax\n'
+       '        coords[:, 1] = datay\n'
+       '        inside = points_in_poly(points=coords, verts=self.points)\n'
+       '\n'
+       '        if not self.inverted:\n'
+       '            return inside\n'
+       '\n'
+       '        # in-place logical negation of the boolean mask\n'
+       '        np.invert(inside, inside)\n'
+       '        return inside\n')]),
+    ('refactoring: save() with f-strings and a list comprehension', POLY,
+     [('        data2write.append("[Polygon {:08d}]".format(self.unique_id))\n'
+       '        data2write.append("X Axis = {}".format(self.axes[0]))\n'
+       '        data2write.append("Y Axis = {}".format(self.axes[1]))\n'
+       '        data2write.append("Name = {}".format(self.name))\n'
+       '        data2write.append("Inverted = {}".format(self.inverted))\n'
+       '        for i, point in enumerate(self.points):\n'
+       '            # 17 significant digits are required to represent '
+       'float64\n'
+       '            data2write.append("point{:08d} = {:.16e} '
+       '{:.16e}".format(i,\n'
+       '                                                                     '
+       'point[0],\n'
+       '                                                                     '
+       'point[1]))\n'
+       '        # Add new lines\n'
+       '        for i in range(len(data2write)):\n'
+       '            data2write[i] += "\\n"\n',
+       '        data2write.append(f"[Polygon {self.unique_id:08d}]")\n'
+       '        data2write.append(f"X Axis = {self.axes[0]}")\n'
+       '        data2write.append(f"Y Axis = {self.axes[1]}")\n'
+       '        data2write.append(f"Name = {self.name}")\n'
+       '        data2write.append(f"Inverted = {self.inverted}")\n'
+       '        for i, point in enumerate(self.points):\n'
+       '            # 17 significant digits are required to represent '
+       'float64\n'
+       '            data2write.append(\n'
+       '                f"point{i:08d} = {point[0]:.16e} {point[1]:.16e}")\n'
+       '        # Add new lines\n'
+       '        data2write = [line + "\\n" for line in data2write]\n')]),
+    ('refactoring: section bounds extracted into a static helper', POLY,
+     [('        bool_head = [li.strip().startswith("[") for li in data]\n'
+       '\n'
+       '        int_head = np.squeeze(np.where(bool_head))\n'
+       '        int_head = np.atleast_1d(int_head)\n'
+       '\n'
+       '        start = int_head[self.fileid]+1\n'
+       '\n'
+       '        if len(int_head) > self.fileid+1:\n'
+       '            end = int_head[self.fileid+1]\n'
+       '        else:\n'
+       '            end = len(data)\n',
+       '        start, end = self._get_section_bounds(data, self.fileid)\n'),
+      ('    def _set_unique_id(self, unique_id):\n',
+       '    @staticmethod\n'
+       '    def _get_section_bounds(data, fileid):\n'
+       '        """Line range [start, end) of section `fileid` (or '
+       'IndexError)"""\n'
+       '        bool_head = [li.strip().startswith("[") for li in data]\n'
+       '\n'
+       '        int_head = np.squeeze(np.where(bool_head))\n'
+       '        int_head = np.atleast_1d(int_head)\n'
+       '\n'
+       '        start = int_head[fileid]+1\n'
+       '\n'
+       '        if len(int_head) > fileid+1:\n'
+       '            end = int_head[fileid+1]\n'
+       '        else:\n'
+       '            end = len(data)\n'
+       '\n'
+       '        return start, end\n'
+       '\n'
+       '    def _set_unique_id(self, unique_id):\n')]),
+    ('refactoring: wrapper binds the mask to a local, imports split', PNPY,
+     [('from ._pnpoly import _grid_points_in_poly, _points_in_poly\n',
+       'from ._pnpoly import _grid_points_in_poly\n'
+       'from ._pnpoly import _points_in_poly\n'),
+      ('    return _points_in_poly(points, verts)\n',
+       '    # delegate to the compiled implementation\n'
+       '    mask = _points_in_poly(points, verts)\n'
+       '    return mask\n')]),
+    ('refactoring: key alias, mirrored comparisons, locals in point_in_poly', POLY,
+     [('        if len(int_head) > self.fileid+1:\n'
+       '            end = int_head[self.fileid+1]\n'
+       '        else:\n'
+       '            end = len(data)\n',
+       '        next_id = self.fileid+1\n'
+       '        if next_id >= len(int_head):\n'
+       '            # last section: it extends to the end of the file\n'
+       '            end = len(data)\n'
+       '        else:\n'
+       '            end = int_head[next_id]\n'),
+      ('            if var.lower() == "x axis":\n'
+       '                xaxis = val.lower()\n'
+       '            elif var.lower() == "y axis":\n'
+       '                yaxis = val.lower()\n'
+       '            elif var.lower() == "name":\n'
+       '                self.name = val\n'
+       '            elif var.lower() == "inverted":\n'
+       '                if val == "True":\n'
+       '                    self.inverted = True\n'
+       '            elif var.lower().startswith("point"):\n',
+       '            key = var.lower()\n'
+       '            if key == "x axis":\n'
+       '                xaxis = val.lower()\n'
+       '            elif key == "y axis":\n'
+       '                yaxis = val.lower()\n'
+       '            elif key == "name":\n'
+       '                self.name = val\n'
+       '            elif key == "inverted":\n'
+       '                if "True" == val:\n'
+       '                    self.inverted = True\n'
+       '            elif key.startswith("point"):\n'),
+      ('        f = points_in_poly(points=points, verts=np.array(poly))\n'
+       '        return f.item()\n',
+       '        verts = np.array(poly)\n'
+       '        inside = points_in_poly(points=points, verts=verts)\n'
+       '        return inside.item()\n')]),
 ]
